@@ -10,7 +10,7 @@ Oracle: python written from the property text, on ledger's own outputs only: the
 register is a permutation of the plain one, ordered by the key, ties in input order;
 --head/--tail keep the first/last N transactions of the reference register; every regrouped
 row is the exact per-commodity sum of its members and the grand total is preserved."""
-import datetime, re
+import datetime, os, re
 from fractions import Fraction as F
 import lib
 
@@ -128,6 +128,9 @@ def gen_journal(rng, profile):
                 k = rng.randrange(4)
                 p['ppayee'] = rng.choice(fresh) if k < 2 else (rng.choice(payees) if k == 2 else payee)
                 p['pstyle'] = rng.choice(['inline', 'inline', 'next'])
+                if rng.random() < 0.1:
+                    # a tag on the posting line AND another one on the line after it
+                    p['pstyle'], p['ppayee2'] = 'both', rng.choice(fresh + payees)
         xtag = rng.choice(fresh + payees) if tag_rate and rng.random() < 0.06 else None
         xs.append(dict(date=d, state=rng.choice([0, 0, 1, 1, 2]), payee=payee, xtag=xtag, posts=posts))
     return xs
@@ -150,21 +153,42 @@ def render_journal(xs):
                 a = '[' + a + ']'
             mk = {None: '', 1: '* ', 2: '! '}[p['mark']]
             l = '    %s%s    %s' % (mk, a, amt_text(p['n'], p['dec'], p['sym']))
-            if p.get('ppayee') and p['pstyle'] == 'inline':
+            if p.get('ppayee') and p['pstyle'] in ('inline', 'both'):
                 l += '  ; Payee: %s' % p['ppayee']
             lines.append(l)
             if p.get('ppayee') and p['pstyle'] == 'next':
                 lines.append('    ; Payee: %s' % p['ppayee'])
+            if p.get('ppayee') and p['pstyle'] == 'both':
+                lines.append('    ; Payee: %s' % p['ppayee2'])
         lines.append('')
     return '\n'.join(lines) + '\n', where
 
 
-def post_payee(x, p):
+def payee_rule():
+    """which rule of post_t::payee() the source under test follows: coq/Gen/PayeeRule.v, written from
+    src/textual.cc and src/post.cc on every run by harness/translators/c18_payee_rule.py"""
+    try:
+        m = re.search(r'src_payee_rule\s*:\s*payee_rule\s*:=\s*(\w+)', open(os.path.join(lib.COQ, 'Gen', 'PayeeRule.v')).read())
+        return m.group(1) if m else 'PayeeRuleUnrecognised'
+    except OSError:
+        return 'PayeeRuleUnrecognised'
+
+
+def post_payee(x, p, rule=None):
     """post_t::payee() as the register's %(payee) shows it: the posting's own `; Payee:` tag, else the
-    transaction's tag, else the transaction's payee.  One wrinkle of textual.cc:1823-1825: the payee is
-    fixed when the posting LINE has been read, so a tag on the line after the posting loses against a
-    transaction-level tag (it still wins against the plain transaction payee)."""
-    if p.get('ppayee') and p.get('pstyle') == 'inline':
+    transaction's tag, else the transaction's payee.  Where the tag sits matters for one case:
+      PayeeFixedAtPostingLine: the payee is fixed when the posting LINE has been read (parse_post), so a
+        tag on the line after the posting loses against a transaction-level tag (it still wins against
+        the plain transaction payee);
+      PayeeFollowsLaterTags (/repo 139b61c): parse_xact stores the payee again when a note line after
+        the posting changes the tag, so the posting's own tag wins wherever it sits.
+    The rule in force is read from the source (payee_rule()); run() also checks the feed against the
+    plain register's own %(payee) column."""
+    rule = rule or payee_rule()
+    if p.get('ppayee') and p.get('pstyle') == 'both':
+        # two tags: the stored one (posting line) under the old rule, the later one under the new rule
+        return p['ppayee'] if rule == 'PayeeFixedAtPostingLine' else p['ppayee2']
+    if p.get('ppayee') and (p.get('pstyle') == 'inline' or rule != 'PayeeFixedAtPostingLine'):
         return p['ppayee']
     return x.get('xtag') or p.get('ppayee') or x['payee']
 
@@ -788,6 +812,12 @@ def run(ctx, n_override=None, oracle_only=False):
         for o, b in zip(uniq, blocks):
             outs[o.text()] = parse_block(b)
         psx = posts_sx(xs)
+        plain = outs.get(Opt().text())
+        if isinstance(plain, list) and len(plain) == len(psx):
+            fed = [bytes.fromhex(lib.sx(q[2])).decode() if q[2] else '' for q in psx]
+            if fed != [r.payee for r in plain]:
+                res.disagreements.append(dict(name='C17/payee-feed', case=dict(journal=text, args=[]),
+                                              impl=str([r.payee for r in plain])[:1500], model=str(fed)[:1500]))
         for k, o in enumerate(uniq):
             all_model_lines.append(lib.sx(['case', 'j%dc%d' % (j, k), o.sx(), ['posts'] + psx]))
             pending.append((j, k, o, outs[o.text()], where, text))
